@@ -133,6 +133,15 @@ func (c context) findVariable(name string, prefix string, global bool) (Variable
 		return Variable{}, false
 	}
 	variable, exists := c.variables[prefixedName]
+
+	// Within a function of an imported file, the file's global variables are stored with the file prefix.
+	if !exists && !global {
+		if prefixedName, err = c.buildPrefixedName(name, prefix, true, true); err == nil {
+			if variable, exists = c.variables[prefixedName]; exists && !variable.Global() {
+				return Variable{}, false
+			}
+		}
+	}
 	return variable, exists
 }
 
